@@ -272,6 +272,7 @@ PNG_DIMS = [1, 255, 256, 65535, 70000]
 JPG_DIMS = [1, 255, 256, 65535]
 APP_LENS = [2, 16, 300]
 APP_SEQS = [[]] + [[a] for a in APP_LENS] + [[a, b] for a in APP_LENS for b in APP_LENS]
+ALL_SOFS = [m for m in range(0xC0, 0xD0) if m not in (0xC4, 0xC8, 0xCC)]
 EMF_TOTALS = [25, 39, 40, 41, 80, 81, 88, 119, 120, 121, 4096]
 
 
@@ -287,13 +288,18 @@ def file_variant_cases(quick: bool):
         yield single({"fmt": "png", "sfx": sfx, "w": w, "h": h, "len": ln})
     for sfx, w, h, app, sof, ln in itertools.product(jpg_sfx, JPG_DIMS, JPG_DIMS, APP_SEQS, (0xC0, 0xC2), LENS):
         yield single({"fmt": "jpeg", "sfx": sfx, "w": w, "h": h, "app": app, "sof": sof, "len": ln})
+    # every frame-header marker of T.81 table B.1 (SOF0..SOF15 without DHT C4, JPG C8, DAC CC)
+    for sof, (w, h), app in itertools.product(ALL_SOFS, ((255, 256), (65535, 1), (405, 183)), ([], [16], [300, 2])):
+        if sof in (0xC0, 0xC2) and (w, h) != (405, 183):
+            continue  # covered above
+        yield single({"fmt": "jpeg", "sfx": ".jpg", "w": w, "h": h, "app": app, "sof": sof, "len": [0, 39]})
     for sfx, tot in itertools.product(emf_sfx, EMF_TOTALS):
         yield single({"fmt": "emf", "sfx": sfx, "tot": tot})
 
 
 def jpeg_structure_cases(quick: bool):
     """Segments in front of the frame header other than plain APPn: DQT/DHT, a decoy SOF inside an APPn, fill bytes."""
-    sofs = (0xC0, 0xC2) if quick else (0xC0, 0xC1, 0xC2, 0xC3, 0xC5, 0xC9, 0xCF)
+    sofs = (0xC0, 0xC2) if quick else tuple(ALL_SOFS)
     lens = [[0, None]] if quick else [[0, None], [0, 0], [256, 39]]
     for w, h, app, sof, fake, tables, fill, ln in itertools.product(JPG_DIMS, JPG_DIMS, APP_SEQS, sofs, (0, 1), (0, 1), (0, 1, 2), lens):
         if not (fake or tables or fill):
